@@ -49,13 +49,15 @@ Print Assumptions C04_never_shared.
    on every recorded multi-instance history by the monitor (c04:sum). *)
 
 (* non-vacuity: two instances, one partition, the first call is slow (2 s); the second
-   instance gets the partition only after the first one's lease is over *)
+   instance is refused while the first one's lease runs, withdraws its demand (an instance that keeps
+   its demand polls at least every MaxInterval), asks again when the lease is over and gets the partition *)
 Definition ex_c : scfg := mkSCfg V2 1 0 true.
 Example C04_nonvacuous :
   exists y, yrun ex_c (yinit ex_c [(0, 1); (0, 1)])
     [YInst 0 (SAStart true); YInst 1 (SAStart true); YInst 0 SILoopProvision; YInst 0 SICreateRet; YInst 1 SILoopProvision; YInst 1 SICreateRet;
-     YInst 0 (SAGiveMe 1); YInst 1 (SAGiveMe 1); YInst 0 (SILease 0); YDecide 0; YTime (2 * sec); YReturn 0;
-     YInst 1 (SILease 0); YDecide 1; YReturn 1; YTime (15 * sec); YInst 0 (SIExpire 0);
-     YInst 1 (SILease 0); YDecide 1; YReturn 1] = Some y
+     YInst 0 (SAGiveMe 1); YInst 0 (SILease 0); YDecide 0; YTime (2 * sec); YReturn 0;
+     YInst 1 (SAGiveMe 1); YInst 1 (SILease 0); YDecide 1; YReturn 1; YInst 1 (SAGiveMe 0);
+     YTime (15 * sec); YInst 0 (SIExpire 0);
+     YInst 1 (SAGiveMe 1); YInst 1 (SILease 0); YDecide 1; YReturn 1] = Some y
     /\ map (fun s => held s) (y_insts y) = [0; 1].
 Proof. eexists. vm_compute. split; reflexivity. Qed.
